@@ -107,8 +107,12 @@ func (dbo *DualBlockOperations) CreateProposalBlock(height uint64, lastState cst
 	// so statedb of proposal node already contains the new state and txs receipts of this proposal block.
 	maxBytes := lastState.ConsensusParams.Block.MaxBytes
 	// Fetch a limited amount of valid evidence
-	maxNumEvidence, _ := types.MaxEvidencePerBlock(int64(maxBytes))
-	evidence, _ := dbo.evpool.PendingEvidence(maxNumEvidence)
+	// PendingEvidence takes a byte budget, not a number of evidences.
+	maxNumEvidence, maxEvidenceBytes := types.MaxEvidencePerBlock(int64(maxBytes))
+	evidence, _ := dbo.evpool.PendingEvidence(maxEvidenceBytes)
+	if int64(len(evidence)) > maxNumEvidence {
+		evidence = evidence[:maxNumEvidence]
+	}
 
 	// Gets all dual's events in pending pools and them to the new block.
 	// TODO(namdoh@): Since there may be a small latency for other dual peers to see the same set of
